@@ -226,6 +226,12 @@ def enumerate_cases(tier, scope):
     yield {'shape': shape, 'instance': {'cls': 'C2', 'members': {'m0': ['val', 1], 'm1': ['val', 2], 'm2': ['val', 3]}}, 'loader': 'default', 'load_with': 'none', 'tamper': 'pv.broken_import:Thing'}
     yield {'shape': shape, 'instance': {'cls': 'C2', 'members': {'m0': ['val', 1], 'm1': ['val', 2], 'm2': ['val', 3]}}, 'loader': 'default', 'load_with': 'none', 'tamper': 'nomodule.xyz:Thing'}
     yield {'shape': shape, 'instance': {'cls': 'C2', 'members': {'m0': ['val', 1], 'm1': ['val', 2], 'm2': ['val', 3]}}, 'loader': 'persave', 'load_with': 'none', 'tamper': 'tag!pv.gen_classes:DoesNotExist'}
+    # the loader recorded in the saved state cannot be found any more when the state is loaded (its module was renamed):
+    # the class names in the state were written by that loader, so nothing else may be asked to read them
+    for loader in ('persave', 'persave+global'):
+        for bad in ('pv.loaders_h:RenamedLoader', 'nomodule.xyz:Loader'):
+            for recreate in (False, True):
+                yield {'shape': shape, 'instance': {'cls': 'C2', 'members': {'m0': ['val', 1], 'm1': ['val', 2], 'm2': ['savable', {'cls': 'D', 'members': {'m0': ['val', 2], 'm3': ['val', 3]}}]}}, 'loader': loader, 'load_with': 'none', 'tamper_loader': bad, 'recreate': recreate}
 
 
 VALS = st.recursive(
@@ -294,6 +300,8 @@ def _cases(draw, tier):
     }
     if draw(st.integers(0, 9)) == 0:
         case['tamper'] = draw(st.sampled_from(['pv.gen_classes:DoesNotExist', 'no-colon-here', 'nomodule.xyz:Thing', 'pv.broken_import:Thing']))
+    elif case['loader'] in ('persave', 'persave+global') and case['load_with'] == 'none' and draw(st.integers(0, 5)) == 0:
+        case['tamper_loader'] = draw(st.sampled_from(['pv.loaders_h:RenamedLoader', 'nomodule.xyz:Loader', 'no-colon-here']))
     case['ctx_extend'] = draw(st.booleans())
     case['reset_global'] = draw(st.booleans())
     case['redefine'] = draw(st.integers(0, 3)) == 0
@@ -501,6 +509,9 @@ def execute(case):
                     v('not-copied-at-save', f'mutating the original after save() changed the saved state: {diff}')
                 if case.get('tamper'):
                     state['!!meta']['class_name'] = case['tamper']
+                tamper_loader = case.get('tamper_loader') if case['loader'] in ('persave', 'persave+global') and case['load_with'] == 'none' and not case.get('tamper') and not case.get('prelude') else None
+                if tamper_loader:
+                    state['!!meta']['user']['object_loader'] = tamper_loader
                 if case.get('redefine'):
                     # the classes are defined again under the same names (a module reloaded, a notebook cell run again):
                     # names are resolved when a state is loaded, so the object must be an instance of the new definitions
@@ -547,6 +558,11 @@ def execute(case):
                         v('unknown-class-loaded', f"identifier {case['tamper']!r} produced {new!r}")
                     elif not isinstance(err, ValueError):
                         v('unknown-class-error-type', f'{type(err).__name__}: {err}')
+                elif tamper_loader:
+                    if err is None:
+                        v('recorded-loader-bypassed', f'the state records the loader {tamper_loader!r}, which cannot be found, yet {type(new).__name__} was created through another loader')
+                    elif not isinstance(err, ValueError):
+                        v('unknown-loader-error-type', f'{type(err).__name__}: {err}')
                 elif err is not None:
                     v('load-raised', f'{type(err).__name__}: {str(err)[:200]}')
                 else:
@@ -589,6 +605,8 @@ def execute(case):
     classes_out = ['loader:' + case['loader'] + '/' + case['load_with']] + ['kind:' + k for k in sorted(flat)]
     if case.get('tamper'):
         classes_out.append('tampered')
+    elif case.get('tamper_loader') and case['loader'] in ('persave', 'persave+global') and case['load_with'] == 'none' and not case.get('prelude'):
+        classes_out.append('recorded-loader-unresolvable')
     if case.get('redefine'):
         classes_out.append('classes-redefined-before-load')
     if case.get('reset_global') and case['loader'] == 'global' and case['load_with'] == 'ctx':
